@@ -30,6 +30,16 @@ def clone(work: str) -> str:
     return repo
 
 
+def apply_patch(repo: str, patch: str):
+    """git apply; when /repo has moved on since the change was written, fall back to a 3-way apply."""
+    a = subprocess.run(["git", "-C", repo, "apply", patch], capture_output=True, text=True)
+    if a.returncode:
+        a = subprocess.run(["git", "-C", repo, "apply", "--3way", patch], capture_output=True, text=True)
+        if a.returncode == 0:
+            subprocess.run(["git", "-C", repo, "reset", "-q"], capture_output=True)
+    return a
+
+
 def run_check(prop: str, tier: str, repo: str, work: str) -> dict:
     env = {**os.environ, "FSVERIF_REPO": repo, "FSVERIF_OUT": os.path.join(work, "out")}
     t0 = time.time()
@@ -53,7 +63,7 @@ def vet(prop: str, patch: str, demo_py: str, name: str, notes: str | None) -> in
         meta["base_commit"] = subprocess.run(["git", "-C", repo, "rev-parse", "--short", "HEAD"], capture_output=True, text=True).stdout.strip()
         rc0, out0 = demo(repo, demo_py)
         meta["demo_on_clean_tree"] = {"exit": rc0, "tail": out0[-300:]}
-        a = subprocess.run(["git", "-C", repo, "apply", os.path.abspath(patch)], capture_output=True, text=True)
+        a = apply_patch(repo, os.path.abspath(patch))
         if a.returncode:
             print("PATCH DOES NOT APPLY", a.stderr)
             return 3
@@ -72,7 +82,7 @@ def vet(prop: str, patch: str, demo_py: str, name: str, notes: str | None) -> in
         r = run_check(prop, "quick", repo, work)
         meta["ran"].append(r)
         print("  quick:", r["exit"], r["violation_keys"][:3])
-        if r["exit"] != 1:
+        if r["exit"] != 1 and "--quick-only" not in sys.argv:
             r = run_check(prop, "thorough", repo, work)
             meta["ran"].append(r)
             print("  thorough:", r["exit"], r["violation_keys"][:3])
@@ -96,7 +106,7 @@ def rerun(name: str, props: list[str] | None, tier: str) -> int:
     work = tempfile.mkdtemp(prefix="fsverif-seeded-")
     try:
         repo = clone(work)
-        a = subprocess.run(["git", "-C", repo, "apply", os.path.join(dst, "patch.diff")], capture_output=True, text=True)
+        a = apply_patch(repo, os.path.join(dst, "patch.diff"))
         if a.returncode:
             print("PATCH DOES NOT APPLY any more:", a.stderr[:300])
             meta["applies_to_head"] = False
